@@ -10,6 +10,9 @@ def main(tier, seed):
     plan = [
         {"name": "operators-exhaustive", "cfg": profcheck.make_cfg("c05ops", ["ops"], 1, expr_budget=4 if q else 5, max_steps=100),
          "sample": None if q else 400000},
+        {"name": "logical-operators-exhaustive", "cfg": profcheck.make_cfg("c05logic", ["ops", "ops-logic"], 1, expr_budget=5 if q else 7, max_steps=100)},
+        {"name": "arithmetic-operators-exhaustive", "cfg": profcheck.make_cfg("c05arith", ["ops", "ops-arith"], 1, expr_budget=5, max_steps=100),
+         "sample": 60000 if q else None},
         {"name": "control-exhaustive", "cfg": profcheck.make_cfg("c05ctlx", CONTROL, 4 if q else 5, names=("a",), fnnames=("f",))},
         {"name": "control-simulated", "cfg": profcheck.make_cfg("c05ctl", CONTROL, 13, names=("a", "b"), fnnames=("f",)),
          "simulate": 6000 if q else 80000},
